@@ -65,12 +65,23 @@ pub fn batch(si: &gen::SchemaInfo, texts: &[String], tmpdir: &str, fork_exe: Opt
         if !o.status.success() { return None; }
         serde_json::from_slice(&o.stdout).ok()
     });
+    // (vi) history across schemas: a fresh process of this same build, which has seen this schema only
+    let fresh: Option<Vec<J>> = std::env::current_exe().ok().and_then(|exe| {
+        std::fs::create_dir_all(tmpdir).ok();
+        let sp = format!("{}/fresh-schema.graphql", tmpdir); let dp = format!("{}/fresh-docs.json", tmpdir);
+        std::fs::write(&sp, &si.text).ok()?;
+        std::fs::write(&dp, serde_json::to_string(&docs.iter().map(|d| d.0.clone()).collect::<Vec<_>>()).ok()?).ok()?;
+        let o = std::process::Command::new(exe).args(["observe-batch", &sp, &dp]).output().ok()?;
+        if !o.status.success() { return None; }
+        serde_json::from_slice(&o.stdout).ok()
+    });
     for (i, d) in docs.iter().enumerate() {
         let base_j: Vec<J> = base[i].iter().map(|g| json!([g.0, g.1])).collect();
         out.push(json!({"op": "validate", "src": d.0, "doc": enc::document(&d.1), "cyclic": valcases::is_cyclic(&d.1), "impl": d.2,
             "purity": {"base": base_j, "repeat_ok": repeat_ok[i], "interleave_ok": inter_ok[i], "threads_ok": thread_ok[i],
                        "schema_unchanged": schema_same, "doc_unchanged": d.1 == docs_before[i],
-                       "fork": fork.as_ref().map(|f| f[i].clone())}}));
+                       "fork": fork.as_ref().map(|f| f[i].clone()),
+                       "fresh_ok": fresh.as_ref().map(|f| f[i]["single"] == d.2["single"] && f[i]["outcome"] == d.2["outcome"])}}));
     }
 }
 
